@@ -59,14 +59,20 @@ Proof.
   rewrite R in S. destruct S as [_ C]. apply (C e eq_refl OE).
 Qed.
 
-(* the same for the SX127x (SX1276 / SX1272 boards h), with LoRa-mode selection left out of what a start requires (x_lora = false):
-   see C14_sx127x_lora_mode_refuted below *)
+(* the same for the SX127x (SX1276 / SX1272 boards h).  The monitor context has x_lora = true: the selection of the LoRa modem
+   (RegOpMode.LongRangeMode, writable in sleep mode only) counts among the things every TX / RX / CAD start depends on, so "bad_start = false"
+   includes "never started in FSK mode"; whenever the driver does not believe the chip asleep the LoRa modem is selected.  (This became
+   provable with the /repo fix that makes the wake-up path re-assert sleep | LoRa; before it, a reset sequence that failed half-way left
+   the chip in FSK mode for good -- see C14_sx127x_failed_reset_history.) *)
 Theorem C14_sx127x_every_history : forall tc dc h quirk (HT : h_tcxo h = tc) fuel rfuel c m,
   hist127 tc dc h quirk HT fuel rfuel c m ->
   bad_asleep m = false /\ bad_start m = false /\ agree (dmode (c_drv c)) (cm m) /\
-  (cold (c_drv c) = false -> valid_all m (it_init127 tc ++ [IPaConfig] ++ [IIrqMask; IDioMap])).
+  (cold (c_drv c) = false -> valid_all m (it_init127 tc ++ [IPaConfig] ++ [IIrqMask; IDioMap])) /\
+  (dmode (c_drv c) <> MSleep -> valid m ILoraMode = true).
 Proof.
-  intros tc dc h quirk HT fuel rfuel c m H. apply hist127_inv in H. destruct H as [[O1 O2] [A [C _]]]. repeat split; assumption.
+  intros tc dc h quirk HT fuel rfuel c m H. apply hist127_inv in H. pose proof H as [[O1 O2] [A [C _]]].
+  split; [exact O1|]. split; [exact O2|]. split; [exact A|]. split; [exact C|].
+  intros D. exact (Inv_lora _ _ _ _ _ H D eq_refl eq_refl).
 Qed.
 Theorem C14_sx127x_failed_operation : forall tc dc h quirk (HT : h_tcxo h = tc) fuel rfuel o c m c' tr e,
   valid_op o -> I127 tc dc h quirk HT (c_drv c) m -> run rfuel c (op_prog (kind127 h quirk) fuel o) [] = (c', tr, Some (inr e)) -> op_err e ->
@@ -160,11 +166,11 @@ Example C14_sx126x_history_example :
   bad_asleep m = false /\ bad_start m = false /\ cm m = CStby /\ dmode d = MRx (RxSingle 10%N).
 Proof. vm_compute. repeat split; reflexivity. Qed.
 
-(* KNOWN FINDING sx127x-failed-reset-leaves-fsk-mode, as a witness: with LoRa-mode selection counted among the things a start depends
-   on (x_lora = true), the history  init with a fault at the first SPI transaction after the reset pulse; prepare_for_tx; tx
-   starts a transmission that the monitor flags (the chip is still in FSK mode): the SX127x statement above cannot include that item *)
-Theorem C14_sx127x_lora_mode_refuted :
+(* The history of the former known finding sx127x-failed-reset-leaves-fsk-mode, on the repaired driver: init with a fault at the first SPI
+   transaction after the reset pulse (the chip stays in FSK standby); prepare_for_tx; tx -- the wake-up of prepare_for_tx now selects the
+   LoRa modem, and the transmission is started with everything it depends on in place *)
+Example C14_sx127x_failed_reset_history :
   let '(d, m, rs) := play {| x_fam := K127; x_tcxo := false; x_dcdc := false; x_listen := false; x_lora := true |} K127 (kind127 h1276 false)
       [(Some 0%N, [], OInit); (None, [], OPrepTx md0 pk0 14%Z [1%N; 2%N]); (None, [(8%N, [])], OTx)] (initial_fields 0x3444%N) power_on in
-  rs = [Some (inr ESpi); Some (inl tt); Some (inl tt)] /\ bad_start m = true.
-Proof. vm_compute. split; reflexivity. Qed.
+  rs = [Some (inr ESpi); Some (inl tt); Some (inl tt)] /\ bad_start m = false /\ bad_asleep m = false /\ valid m ILoraMode = true.
+Proof. vm_compute. repeat split; reflexivity. Qed.
